@@ -217,7 +217,8 @@ Definition mk_tx (ver : Z) (oi : option (list txin)) (oo : option (list txout)) 
 Lemma build_tx_ok mut n h ver li lo w lk : inv mut n h -> all_made mut n h li -> all_made mut n h lo ->
   let r := build_tx mut h ver li lo w lk in
   made mut n h (fst r) (snd r) /\
-  abs_tx (fst r) (snd r) = mk_tx ver (opt_all (abs_txin h) li) (opt_all (abs_txout h) lo) w lk.
+  abs_tx (fst r) (snd r) = mk_tx ver (opt_all (abs_txin h) li) (opt_all (abs_txout h) lo) w lk /\
+  exists vi vo, body_at (fst r) (snd r) = Some (BTx ver vi vo w lk).
 Proof.
   intros I Ai Ao. assert (W : wf h) by apply I. unfold build_tx. destruct mut.
   - set (h1 := fst (alloc h (mk true (BList li)))).
@@ -240,6 +241,7 @@ Proof.
       - intros r [<-|[<-|[]]]; lia.
       - intros _ r [<-|[<-|[]]]; destruct I as (_ & N & _); lia. }
     split; [eapply made_trans; [exact M1|]; eapply made_trans; [exact M2|exact M3]|].
+    split; [|unfold b; rewrite (body_at_alloc h2 (mk true _)); simpl; eauto].
     set (h3 := fst (alloc h2 (mk true b))). assert (X3 : ext h2 h3) by apply ext_alloc.
     assert (X13 : ext h1 h3) by (eapply ext_trans; eauto). assert (X03 : ext h h3) by (eapply ext_trans; eauto).
     unfold abs_tx. unfold h3 at 1. rewrite body_at_alloc. cbn [o_body mk b seq_items].
@@ -255,6 +257,7 @@ Proof.
       - intros r Hr. apply in_app_or in Hr as [Hr|Hr]; [destruct (Ai r Hr) as (M & _)|destruct (Ao r Hr) as (M & _)]; eapply mut_at_lt; eauto.
       - intros _ r Hr. apply in_app_or in Hr as [Hr|Hr]; [apply Ai|apply Ao]; exact Hr. }
     cbn [fst snd]. rewrite snd_alloc. split; [exact M1|].
+    split; [|unfold b; rewrite (body_at_alloc h (mk false _)); simpl; eauto].
     set (h1 := fst (alloc h (mk false b))). assert (X1 : ext h h1) by apply ext_alloc.
     unfold abs_tx. unfold h1 at 1. rewrite body_at_alloc. cbn [o_body mk b seq_items].
     rewrite (opt_all_ext (abs_txin h1) (abs_txin h) li).
@@ -292,7 +295,7 @@ Proof.
   2:{ auto. }
   assert (W2 : wf h2) by apply I2.
   intros E. assert (A1' : all_made mut n h2 li) by exact (all_made_ext mut n h1 h2 li W1 X2 A1).
-  destruct (build_tx_ok mut n h2 (tx_version v) li lo (tx_wit v) (tx_lock v) I2 A1' A2) as (M & V).
+  destruct (build_tx_ok mut n h2 (tx_version v) li lo (tx_wit v) (tx_lock v) I2 A1' A2) as (M & V & _).
   destruct (build_tx mut h2 (tx_version v) li lo (tx_wit v) (tx_lock v)) as [h3 y3]. injection E as <- <-. simpl in *.
   split.
   - destruct M as (I3 & X3 & M3 & F3). split; [exact I3|]. split; [|auto].
@@ -318,7 +321,7 @@ Proof.
 Qed.
 
 Lemma from_tx_ok mut n h x h' y : inv mut n h -> from_tx mut h x = Ok (h', y) ->
-  made mut n h h' y /\ abs_tx h' y = abs_tx h x /\ (x < h_next h)%nat.
+  made mut n h h' y /\ abs h' y = abs h x /\ (x < h_next h)%nat.
 Proof.
   intros I. assert (W : wf h) by apply I. unfold from_tx. destruct (get h x) as [o|] eqn:E; [|discriminate].
   assert (LT := wf_lt ser H pyh h x o W E).
@@ -333,7 +336,7 @@ Proof.
     assert (G : forall m : bool, m = mut ->
       (do hi <- alloc_all (from_txin m) h li; do ho <- alloc_all (from_txout m) (fst hi) lo;
        Ok (build_tx m (fst ho) ver (snd hi) (snd ho) w lk)) = Ok (h', y) ->
-      made mut n h h' y /\ abs_tx h' y = abs_tx h x /\ (x < h_next h)%nat).
+      made mut n h h' y /\ abs h' y = abs h x /\ (x < h_next h)%nat).
     { intros m -> .
       destruct (alloc_all (from_txin mut) h li) as [[h1 li']|] eqn:E1; [|discriminate]. simpl.
       destruct (alloc_all (from_txout mut) h1 lo) as [[h2 lo']|] eqn:E2; [|discriminate]. simpl.
@@ -354,12 +357,12 @@ Proof.
       2:{ intros a Ha. destruct X1. specialize (Lo a Ha). lia. }
       assert (W2 : wf h2) by apply I2.
       intros E'. assert (A1' : all_made mut n h2 li') by exact (all_made_ext mut n h1 h2 li' W1 X2 A1).
-      destruct (build_tx_ok mut n h2 ver li' lo' w lk I2 A1' A2) as (M & V).
+      destruct (build_tx_ok mut n h2 ver li' lo' w lk I2 A1' A2) as (M & V & vi' & vo' & BT).
       destruct (build_tx mut h2 ver li' lo' w lk) as [h3 y3]. injection E' as <- <-. simpl in *.
       split; [|split; [|exact LT]].
       - destruct M as (I3 & X3 & M3 & F3). split; [exact I3|]. split; [|auto].
         eapply ext_trans; [exact X1|]. eapply ext_trans; eauto.
-      - rewrite V, V2.
+      - unfold abs. rewrite BT, BA. f_equal. rewrite V, V2.
         rewrite (opt_all_ext (abs_txin h2) (abs_txin h1) li'), V1.
         2:{ intros a Ha. apply ext_abs_txin; auto. destruct (A1 a Ha) as (Ma & _). eapply mut_at_lt; eauto. }
         rewrite (opt_all_ext (abs_txout h1) (abs_txout h) lo).
